@@ -109,3 +109,66 @@ def witness_path(q, edge, blocked=()):
 
 def entry_name(ctx, key):
     return ctx.B[key]['path']
+
+
+# ------------------------------------------------------------------ objects and outcomes
+
+def obj_root(v):
+    """The abstract object a handle/path term designates: strips payload projections and
+    mutation sets; a handle obtained by opening a path designates that path's object."""
+    seen = 0
+    while v is not None and seen < 40:
+        seen += 1
+        t = VAL[v]
+        if t[0] == 'sym' and t[1] in ('vf', 'fld'):
+            v = t[2]
+        elif t[0] == 'sym' and t[1] == 'mut':
+            v = t[2]
+        elif t[0] == 'sym' and t[1] == 'app' and prims.classify(t[2])[0] in ('open_ro', 'open_rw') and len(t) > 4:
+            v = t[4]
+        else:
+            return v
+    return v
+
+
+def outcome_edges(q, e, vname):
+    """refine edges that establish outcome `vname` (Ok/Err/Some/None) of the call made on edge e."""
+    ev = q.E[e][2]
+    res = ev.get('res')
+    if res is None:
+        return []
+    return q.edges(lambda x: x['k'] == 'refine' and x['val'] == res and x['vname'] == vname)
+
+
+def outcomes(q, edges, vname):
+    out = []
+    for e in edges:
+        out += outcome_edges(q, e, vname)
+    return sorted(set(out))
+
+
+def is_temp_object(v):
+    t = VAL[v]
+    return t[0] == 'sym' and t[1] == 'app' and prims.classify(t[2])[0] in ('temp_create_named', 'temp_create_anon', 'temp_create_named_default')
+
+
+def callback_kind(ctx, q, ev):
+    """populate / judge / checker / other, from the callee term: entry parameters are classified
+    by their declared bound, the checker by the field it is loaded from."""
+    c = ev['callee']
+    t = VAL[c]
+    if t[0] == 'sym' and t[1] == 'param':
+        body = ctx.B[q.interp.entry_key]
+        ty = ctx.T[body['locals'][int(t[2])]['ty']]
+        # impl Trait parameters print as `impl FnOnce(..)`
+        s = ty['s']
+        if 'CacheHit' in s:
+            return 'judge'
+        if 'File' in s and 'Fn' in s and 'mut' in s:
+            return 'populate'
+        return 'param'
+    for s_ in values.subs(c):
+        ts = VAL[s_]
+        if ts[0] == 'sym' and ts[1] == 'fld':
+            return 'checker'
+    return 'other'
